@@ -588,8 +588,60 @@ impl Engine for ShutdownEngine {
 
 // ------------------------------------------------------------ C03: receive windows, h2 server fed by the reference peer
 
+/// Many uploads through tiny stream windows: each stream sends exactly its window, the application releases
+/// everything, and the second half of every upload can only follow once the stream's WINDOW_UPDATE has arrived.
+/// Hundreds of updates fall due together (the codec's write buffer fills while they are being queued), optionally
+/// while the endpoint's writes are blocked for a while.
+fn gen_flow_many(t: &mut Tape, tapes: &[Vec<u32>]) -> RawCase {
+    let mut cfg = plain_cfg();
+    // (DATA frames below 256 bytes count against h2's small-frame budget: the windows are at least that large)
+    let w = *t.pick(&[256u32, 300, 512]);
+    cfg.initial_window = Some(w);
+    // all first halves together fit the connection window
+    cfg.conn_window = Some(1 << 20);
+    let max_n = (1_000_000 / w as usize).min(1400);
+    let n = (max_n / 4) + t.below(max_n - max_n / 4);
+    let blocked = t.bool();
+    let mut script: Vec<PStep> = vec![PStep::Barrier];
+    if blocked {
+        script.push(PStep::Reading(false));
+    }
+    let mut reqs: Vec<Req> = Vec::new();
+    for k in 0..n {
+        let id = 2 * k as u32 + 1;
+        let mut r = default_req(id);
+        r.req_reader = Reader::Eager;
+        // (answers are small or none: this is about the updates)
+        r.resp_delay = if t.chance(1, 8) { 0 } else { 3000 };
+        reqs.push(r);
+        script.push(hdr(id, "POST", false));
+        script.push(PStep::Data { stream: id, len: w as usize, pad: None, end_stream: false, force: false });
+        if t.chance(1, 16) {
+            script.push(PStep::Yield(1 + t.below(4)));
+        }
+    }
+    script.push(PStep::Yield(20 + t.below(60)));
+    if blocked {
+        script.push(PStep::Reading(true));
+    }
+    script.push(PStep::Mark("second-halves".into()));
+    for k in 0..n {
+        let id = 2 * k as u32 + 1;
+        script.push(PStep::Data { stream: id, len: w as usize, pad: None, end_stream: true, force: false });
+    }
+    script.push(PStep::Barrier);
+    script.push(PStep::Yield(60));
+    script.push(PStep::Barrier);
+    let spec = RawSpec { peer_settings: vec![], script, grant: Grant::Eager, close_at_end: false };
+    let b = base(t, tapes, cfg, reqs);
+    RawCase { h2_side: Side::Server, base: b, spec, inject: None, probe_stream: 0, e_out_cap: if blocked { Some(256) } else if t.chance(1, 3) { Some(*t.pick(&[1000usize, 20000])) } else { None } }
+}
+
 pub fn gen_flow_server(tapes: &[Vec<u32>]) -> RawCase {
     let mut t = Tape::new(&tapes[0]);
+    if t.chance(1, 24) {
+        return gen_flow_many(&mut t, tapes);
+    }
     let mut cfg = plain_cfg();
     if t.chance(1, 2) {
         cfg.initial_window = Some(*t.pick(&[1000u32, 20000, 65535, 100_000]));
@@ -677,6 +729,86 @@ pub fn raw_c03(case: &RawCase, rr: &RawRun, tap: &Tap, out: &mut Outcome) {
     check_c03(&C03Ctx { tap, events: &rr.run.events, samples: &rr.run.samples, final_stats: &rr.run.stats, h2_sides: &sides, conn_target: [ct, ct], initial_window: [iw, iw] }, out);
 }
 
+/// At quiescence of a live connection no receive window may stay exhausted while the application holds nothing:
+/// whatever it released must have been advertised again (else the sender is blocked for good — capacity leaked).
+/// Judged only without local window reconfiguration (the initial window in force is then the configured one).
+pub fn check_exhausted_windows(case: &RawCase, rr: &RawRun, tap: &Tap, out: &mut Outcome) {
+    let e = case.h2_side;
+    if !case.base.ops.is_empty() || rr.run.end != RunEnd::Quiescent || rr.run.panic.is_some() {
+        return;
+    }
+    if rr.run.events.iter().any(|ev| ev.side == e && matches!(&ev.api, Api::ConnDone { .. })) {
+        return;
+    }
+    if tap.frames.iter().any(|f| f.from == e && matches!(&f.frame, Ok(Frame::GoAway { .. }))) {
+        return;
+    }
+    let cfg = if e == Side::Server { &case.base.scfg } else { &case.base.ccfg };
+    let iw = cfg.initial_window.unwrap_or(65535) as i64;
+    // per stream: flow bytes delivered, increments advertised, ended?
+    let mut flow: std::collections::BTreeMap<u32, (i64, i64, bool, i64)> = std::collections::BTreeMap::new();
+    let mut conn = (0i64, 0i64);
+    for f in &tap.frames {
+        match (&f.frame, f.from == e) {
+            (Ok(fr @ Frame::Data { stream, end_stream, data, .. }), false) if f.t_d.is_some() => {
+                let x = flow.entry(*stream).or_insert((0, 0, false, 0));
+                x.0 += fr.flow_len() as i64;
+                x.3 += data.len() as i64;
+                x.2 |= *end_stream;
+                conn.0 += fr.flow_len() as i64;
+            }
+            (Ok(Frame::Rst { stream, .. }), _) => {
+                flow.entry(*stream).or_insert((0, 0, false, 0)).2 = true;
+            }
+            (Ok(Frame::WinUp { stream: 0, inc, .. }), true) => conn.1 += *inc as i64,
+            (Ok(Frame::WinUp { stream, inc, .. }), true) => flow.entry(*stream).or_insert((0, 0, false, 0)).1 += *inc as i64,
+            _ => {}
+        }
+    }
+    // released by the application, per stream (keys of RAW servers: x-id = stream id, default handlers 9000 + id)
+    let mut key_stream: std::collections::HashMap<u32, u32> = std::collections::HashMap::new();
+    for ev in rr.run.events.iter().filter(|ev| ev.side == e) {
+        if let Api::RecvHead { stream, .. } = &ev.api {
+            key_stream.insert(ev.key, *stream);
+        }
+    }
+    let mut released: std::collections::HashMap<u32, i64> = std::collections::HashMap::new();
+    let mut reader_gone: std::collections::HashSet<u32> = std::collections::HashSet::new();
+    for ev in rr.run.events.iter().filter(|ev| ev.side == e) {
+        let s = match key_stream.get(&ev.key) {
+            Some(s) => *s,
+            None => continue,
+        };
+        match &ev.api {
+            Api::Released { n, err: None } => *released.entry(s).or_insert(0) += *n as i64,
+            Api::DroppedRecv | Api::RecvErr { .. } | Api::SentReset { .. } | Api::DroppedSend => {
+                reader_gone.insert(s);
+            }
+            _ => {}
+        }
+    }
+    let mut stuck: Vec<u32> = Vec::new();
+    for (s, (d, wu, ended, data)) in &flow {
+        if *ended || reader_gone.contains(s) || *d == 0 {
+            continue;
+        }
+        let peer_view = iw + wu - d;
+        let held = data - released.get(s).copied().unwrap_or(0);
+        if peer_view <= 0 && held <= 0 {
+            stuck.push(*s);
+        }
+    }
+    if !stuck.is_empty() {
+        out.fail(
+            "C03",
+            "leak/exhausted-window",
+            "C03/stream-window-stays-exhausted-although-everything-was-released",
+            format!("{} at quiescence: on streams {:?}{} the peer has used up the whole receive window ({} bytes), the application has read and released every byte, the stream is still open — and no WINDOW_UPDATE was sent: the released capacity is never advertised again", e.name(), &stuck[..stuck.len().min(8)], if stuck.len() > 8 { format!(" (+{} more)", stuck.len() - 8) } else { String::new() }, iw),
+        );
+    }
+    let _ = conn;
+}
+
 pub struct FlowEngine;
 
 impl Engine for FlowEngine {
@@ -702,6 +834,7 @@ impl Engine for FlowEngine {
         let mut out = Outcome::default();
         common_raw_oracles(case, &rr, &an, &mut out);
         raw_c03(case, &rr, &an.tap, &mut out);
+        check_exhausted_windows(case, &rr, &an.tap, &mut out);
         let padded = an.tap.frames.iter().any(|f| f.from != case.h2_side && matches!(&f.frame, Ok(Frame::Data { pad: Some(_), .. })));
         let discard = rr.run.events.iter().any(|e| matches!(&e.api, Api::DroppedRecv | Api::SentReset { .. })) || an.tap.frames.iter().any(|f| matches!(&f.frame, Ok(Frame::Rst { .. })));
         if padded {
@@ -713,7 +846,11 @@ impl Engine for FlowEngine {
         if !case.base.ops.is_empty() {
             out.label("window-reconfigured");
         }
-        out.nontrivial = padded || discard || !case.base.ops.is_empty();
+        let many = case.base.reqs.len() > 50;
+        if many {
+            out.label(if rr.obs.script_done { "many-small-uploads:completed" } else { "many-small-uploads:not-completed" });
+        }
+        out.nontrivial = padded || discard || !case.base.ops.is_empty() || many;
         out.note = format!("{} wire frames, end={:?}, script_done={}", an.tap.frames.len(), rr.run.end, rr.obs.script_done);
         out
     }
